@@ -122,13 +122,15 @@ func evaluate(s *wscript) verdict {
 			switch {
 			case err == nil:
 				decoded = d
-			case s.nameD == s.obj.d && bytes.Equal(d, s.obj.data):
+			case s.nameD == s.obj.d && (len(s.obj.data) == 0 || bytes.Equal(d, s.obj.data)):
 				// The stream decodes to exactly the object and breaks only
-				// after that (a truncated or garbage tail; for the empty object:
-				// any broken stream). What is stored would match the digest, so
-				// the statement is not violated either way: ambiguous.
-				// (casValidatingReader accepts such a tail when the decoder
-				// reports it as io.ErrUnexpectedEOF.)
+				// after that (a truncated or garbage tail), or the object is
+				// the empty one and the stream breaks somewhere (how much a
+				// decoder hands out before it reports the break is its own
+				// business). What would be stored matches the digest, so the
+				// statement is not violated either way: ambiguous.
+				// (casValidatingReader, once it has all the bytes it expects,
+				// accepts a decoder error io.ErrUnexpectedEOF as end of stream.)
 				decoded = d
 				brokenTail = true
 			default:
